@@ -46,6 +46,60 @@ RAISE_VIEW = [
 ]
 
 
+LV = 'last_view'
+VIEW_OF_LAST = [
+    ('view_is_exactly_the_included_results', "forall(lambda k: (k in last_view) == " + INCLUDED('k') + ", 'str')", ['C12']),
+    ('view_values_are_the_recorded_results', "forall(lambda k: implies(k in last_view, last_view[k] is " + ER + "[k]), 'str')", ['C12']),
+    ('view_in_handler_order', "forall(lambda k1, k2: implies(k1 in last_view and k2 in last_view, (pos(last_view, k1) < pos(last_view, k2)) == (pos(" + ER + ", k1) < pos(" + ER + ", k2))), 'str', 'str')", ['C12']),
+]
+
+WRAPPER_PARAMS = {'self': 'BaseEvent', 'timeout': 'opt[real]', 'include': 'any', 'raise_if_any': 'bool', 'raise_if_none': 'bool'}
+
+
+def set_view(ex, n, r):
+    ex.ghost_set('last_view', V(r.ty, r.term))
+
+
+def install_wrappers(spec: Spec):
+    """The accessors built on event_results_filtered: each is stated as a map over `last_view` - the dict the inner call returned
+    (ghost, set at the call site) - and re-exports that this dict is exactly the included view of the recorded results."""
+    from pyvc.values import parse_ty
+    M = 'bubus/models.py'
+    F = spec.functions['BaseEvent.event_results_filtered']
+    spec.ghosts['last_view'] = parse_ty('dict[str,EventResult]')
+    # the wrappers pass the inner accessor's exceptions on unchanged: same clauses, raised at the inner call
+    raises = [RaisesClause(rc.cls, when=rc.when, ensures=[(c.label, c.expr, list(c.tags)) for c in rc.ensures], label=rc.label, tags=rc.tags,
+                           origin='call:BaseEvent.event_results_filtered/' + rc.label, delivered=rc.delivered)
+              for rc in F.raises if not rc.caller_only]
+    common = dict(file=M, is_async=True, interference='results', requires=[('in_loop', 'loop_running()', [])],
+                  modifies=[(c[0], c[1]) for c in F.modifies], ghost_modifies=['last_view'],
+                  callsites={'self.event_results_filtered': {'post': set_view}}, raises=raises)
+
+    def fn(name, returns, ensures, locals_, **kw):
+        key = 'BaseEvent.' + name
+        spec.fn(key, qual=key, params=dict(WRAPPER_PARAMS), returns=returns, locals=locals_,
+                ensures=VIEW_OF_LAST + ensures, **dict(common, **kw))
+        spec.methods[('BaseEvent', name)] = key
+
+    fn('event_results_by_handler_id', 'dict[str,any]',
+       [('one_entry_per_included_result', "forall(lambda k: (k in result) == (k in last_view), 'str')", ['C12']),
+        ('values_are_the_recorded_values', "forall(lambda k: implies(k in result, result[k] is last_view[k].result), 'str')", ['C12']),
+        ('in_view_order', "forall(lambda k1, k2: implies(k1 in result and k2 in result, (pos(result, k1) < pos(result, k2)) == (pos(last_view, k1) < pos(last_view, k2))), 'str', 'str')", ['C12'])],
+       {'included_results': 'dict[str,EventResult]'})
+    fn('event_results_list', 'list[any]',
+       [('one_value_per_included_result', 'len(result) == len(last_view)', ['C12']),
+        ('values_in_view_order', 'forall(lambda i: implies(0 <= i and i < len(result), result[i] is last_view[list(last_view)[i]].result))', ['C12'])],
+       {'valid_results': 'dict[str,EventResult]'})
+    fn('event_result', 'any',
+       [('none_if_nothing_included', 'implies(len(last_view) == 0, result is None)', ['C12']),
+        ('first_included_value', 'implies(len(last_view) > 0, result is last_view[list(last_view)[0]].result)', ['C12'])],
+       {'valid_results': 'dict[str,EventResult]', 'results': 'list[EventResult]'})
+    fn('event_results_by_handler_name', 'dict[str,any]',
+       [('every_included_result_is_listed_under_its_handler_name', "forall(lambda k: implies(k in last_view, last_view[k].handler_name in result and result[last_view[k].handler_name] is last_view[k].result), 'str')", ['C12']),
+        ('one_entry_per_included_result', 'len(result) == len(last_view)', ['C12'])],
+       {'included_results': 'dict[str,EventResult]'})
+
+
 def install(spec: Spec):
     spec.specfuns['pos'] = sf_pos
     C = spec.functions['BaseEvent.event_results_filtered']
@@ -55,3 +109,4 @@ def install(spec: Spec):
         if rc.label == 'requested_raise':
             have = {c.label for c in rc.ensures}
             rc.ensures = list(rc.ensures) + [Clause.of(c) for c in RAISE_VIEW if c[0] not in have]
+    install_wrappers(spec)
